@@ -1245,7 +1245,7 @@ fn execute_match(
         } => {
             response = add_transfer(
                 response,
-                is_base_restricted_marker.to_owned(),
+                is_restricted_marker(&deps.querier, converted_base.denom.clone()),
                 execute_size.into(),
                 converted_base.to_owned().denom,
                 bid_order.owner.to_owned(),
